@@ -21,6 +21,7 @@ done
 sysctl -qw net.ipv4.conf.all.rp_filter=0 2>/dev/null || true
 for i in ve0 ve1 vf0 vf1; do ip link set $i up; done
 ip addr add 10.77.0.1/24 dev ve0
+ip addr add 10.77.0.7/24 dev ve0   # a second address on the same interface (a service address next to the physical one)
 ip addr add 10.78.0.1/24 dev vf0
 ip -6 addr add 2001:db8:77::1/64 dev ve0 nodad 2>/dev/null || true
 ip -6 addr add 2001:db8:78::1/64 dev vf0 nodad 2>/dev/null || true
